@@ -3,7 +3,10 @@ reduction tree over every arrangement of the operands, the statistics of the uni
 Tie: T1 (generated combine) + T3: the real sc_stats_compute runs on the simulated MPI, whose Allreduce applies the
 user operation along random trees over random permutations; the records the real code packed (from the trace) are
 folded by the extracted model and compared with what every rank obtained; an independent oracle computes the
-statistics of the union of the samples."""
+statistics of the union of the samples.
+Second layer (docs/C13.md): the per-variable object sc_statinfo_t as a state machine (coq/C13/VarModel.v), every transition generated
+from src/sc_statistics.c (group StatsVarC13) and proved equal; theorems over histories of any number of rounds; the extracted state
+machine is run on every history of the correspondence run and compared with all fields after every round on every rank."""
 import os, sys, json, struct, math
 import vlib, mpitrace
 sys.path.insert(0, os.path.join(vlib.TOOLS, "c2g"))
@@ -37,7 +40,8 @@ SETTERS = (0, 1, 3, 4, 5, 6)      # modes that make the variable dirty (init / s
 def gen_cases(ctx):
     """A case: (P, seed, adversary, nvars, rounds, data, kinds); data[round][rank][var] = (mode, samples), kinds[round] = 0
     (sc_stats_compute) or 1 (sc_stats_compute1).  The generator simulates the dirty flags so that sc_stats_accumulate is only
-    called on dirty variables (mode 7) and sc_stats_compute1 only when every variable has been set on every rank."""
+    called on dirty variables (mode 7).  Rounds ending with sc_stats_compute1 deliberately contain clean variables (clean on all
+    ranks, clean on some ranks): since repair F-C13a sc_stats_compute1 must leave them untouched."""
     rng = ctx.rng
     cases = []
     Ps = [1, 2, 3, 4, 5, 6, 8, 9, 13] if ctx.quick else list(range(1, 20)) + [24, 32, 33]
@@ -49,15 +53,15 @@ def gen_cases(ctx):
             isdirty = [[False] * nvars for _ in range(P)]
             data, kinds = [], []
             for rd in range(rounds):
-                kind = 1 if rng.random() < 0.15 else 0
-                redo = [True] * nvars if (rd == 0 or kind == 1) else [rng.random() < 0.6 for _ in range(nvars)]
+                kind = 1 if rng.random() < 0.25 else 0
+                redo = [True] * nvars if rd == 0 else [rng.random() < 0.6 for _ in range(nvars)]
                 rdata = []
                 # which ranks are empty for a variable: random subset, all, only highest, only lowest, and the protocol cases of the
                 # history theorems: reset_nothing = some ranks reset and contribute nothing while others have samples
                 pattern = [rng.choice(["rand", "only_low", "only_high", "all_but_one", "all", "reset_nothing", "none"]) for _ in range(nvars)]
                 # in a later round a variable may also be clean on SOME ranks only: those ranks contribute no sample to
                 # this computation and keep their old values, the others obtain the statistics of the dirty ranks
-                mixed = [rd > 0 and kind == 0 and redo[i] and rng.random() < 0.4 for i in range(nvars)]
+                mixed = [rd > 0 and redo[i] and rng.random() < 0.4 for i in range(nvars)]
                 for q in range(P):
                     row = []
                     for i in range(nvars):
@@ -89,13 +93,17 @@ def gen_cases(ctx):
                 # the dirty flags after this round
                 for i in range(nvars):
                     d = [rdata[q][i][0] in SETTERS or isdirty[q][i] for q in range(P)]
-                    anysample = kind == 1 or any(d[q] and (rdata[q][i][1] or (rdata[q][i][0] == 7 and False)) for q in range(P))
+                    # sc_stats_compute1: every dirty rank contributes the sample sum_values
+                    anysample = any(d[q] and (kind == 1 or rdata[q][i][1]) for q in range(P))
                     # samples accumulated in EARLIER rounds on a still dirty variable cannot exist: it stayed dirty because there were none
                     for q in range(P):
                         isdirty[q][i] = d[q] and not anysample
                 data.append(rdata)
                 kinds.append(kind)
             cases.append((P, rng.randrange(1 << 30), rng.randrange(8), nvars, rounds, data, kinds))
+    # F-C13a, the witness of theorem C13_compute1_clean_old_refuted as an ordinary judged case:
+    # P = 1: init; accumulate 2; accumulate 4; compute; then compute1 without touching the variable
+    cases.insert(0, (1, 1, 0, 1, 2, [[[(0, [2.0, 4.0])]], [[(2, [])]]], [0, 1]))
     return cases
 
 
@@ -171,7 +179,7 @@ def oracle_var(P, contributions):
 
 def run(ctx):
     import genall
-    st = genall.run(["StatsC13"])
+    st = genall.run(["StatsC13", "StatsVarC13"])
     for g, s in st.items():
         if s.startswith("FAILED"):
             ctx.tie_broken("translator group " + g, s)
@@ -183,10 +191,13 @@ def run(ctx):
     if ctx.replay:
         rp = json.load(open(ctx.replay)).get("replay", {})
         if "case" in rp:
-            cases = [tuple(rp["case"])] + cases[:3]
+            c = list(rp["case"])
+            if len(c) == 6:
+                c.append([0] * c[4])
+            cases = [tuple(c)] + cases[:3]
     text = []
-    for (P, seed, adv, nvars, rounds, data) in cases:
-        text.append("%d %d %d %d %d" % (P, seed, adv, nvars, rounds))
+    for (P, seed, adv, nvars, rounds, data, kinds) in cases:
+        text.append("%d %d %d %d %d %s" % (P, seed, adv, nvars, rounds, " ".join(str(k) for k in kinds)))
         for rd in range(rounds):
             for q in range(P):
                 for i in range(nvars):
@@ -199,16 +210,20 @@ def run(ctx):
     runs = mpitrace.parse_runs(lines)
     mlines, mindex = [], []
     nbad = 0
-    dist = {"P": {}, "vars_with_empty_ranks": 0, "vars_all_empty": 0, "vars": 0, "clean_vars": 0}
+    dist = {"P": {}, "vars_with_empty_ranks": 0, "vars_all_empty": 0, "vars": 0, "clean_vars": 0, "modes": {}, "rounds": {}, "compute1_rounds": 0, "compute1_clean_triples": 0, "compute1_vars_clean_on_all_ranks": 0, "compute1_vars_clean_on_some_ranks": 0,
+            "reset_then_nothing_with_samples_elsewhere": 0, "stays_dirty_then_accumulates": 0, "vars_clean_on_some_ranks": 0}
+    hlines, hindex = [], []
     for ci, c in enumerate(cases):
-        P, seed, adv, nvars, rounds, data = c
+        P, seed, adv, nvars, rounds, data, kinds = c
         dist["P"][P] = dist["P"].get(P, 0) + 1
-        ctx.count_case((P, seed, adv, nvars, rounds, repr(data)), nontrivial=P > 1)
+        dist["rounds"][rounds] = dist["rounds"].get(rounds, 0) + 1
+        dist["compute1_rounds"] += sum(kinds)
+        ctx.count_case((P, seed, adv, nvars, rounds, repr(data), repr(kinds)), nontrivial=P > 1)
         if ci >= len(runs):
             ctx.tie_broken("harness output", "run %d missing" % ci)
             break
         r = runs[ci]
-        rep = dict(case=[P, seed, adv, nvars, rounds, data], rc=r.rc, report=r.report[:1200])
+        rep = dict(case=[P, seed, adv, nvars, rounds, data, kinds], rc=r.rc, report=r.report[:1200])
         key = "P%d-v%d-r%d" % (P, nvars, rounds)
         if r.rc != 0:
             nbad += 1
@@ -219,22 +234,40 @@ def run(ctx):
         for o in r.outs:
             w = o.split()
             outs[(int(w[0]), int(w[1]), int(w[2]))] = w[3:]
-        # current contributions per variable (what the union consists of), tracking clean variables
+        # current contributions per variable (what the union consists of), tracking the dirty flags as the documentation describes them:
+        # init / set1 / reset make a variable dirty, sc_stats_compute clears the flag when there is at least one sample
         contrib = [[[] for _ in range(P)] for _ in range(nvars)]
+        isdirty = [[False] * nvars for _ in range(P)]
         prev = {}
         for rd in range(rounds):
             for i in range(nvars):
-                dirty = [data[rd][q][i][0] != 2 for q in range(P)]
+                for q in range(P):
+                    mode, xs = data[rd][q][i]
+                    dist["modes"][mode] = dist["modes"].get(mode, 0) + 1
+                    if mode == 7 and isdirty[q][i]:
+                        dist["stays_dirty_then_accumulates"] += 1
+                dirty = [data[rd][q][i][0] in SETTERS or isdirty[q][i] for q in range(P)]
                 # the union of this computation: the samples of the ranks on which the variable is dirty
                 contrib[i] = [list(data[rd][q][i][1]) if dirty[q] else [] for q in range(P)]
+                if kinds[rd]:
+                    # sc_stats_compute1: every rank contributes the single sample sum_values
+                    contrib[i] = [[float(sum(xs))] if dirty[q] else [] for q, xs in enumerate(contrib[i])]
                 if any(dirty) and not all(dirty):
-                    dist["vars_clean_on_some_ranks"] = dist.get("vars_clean_on_some_ranks", 0) + 1
+                    dist["vars_clean_on_some_ranks"] += 1
+                if kinds[rd]:
+                    dist["compute1_clean_triples"] += sum(1 for d_ in dirty if not d_)
+                    if not any(dirty):
+                        dist["compute1_vars_clean_on_all_ranks"] += 1
+                    elif not all(dirty):
+                        dist["compute1_vars_clean_on_some_ranks"] += 1
                 exp = oracle_var(P, contrib[i])
                 dist["vars"] += 1
                 if any(not xs for xs in contrib[i]):
                     dist["vars_with_empty_ranks"] += 1
                 if exp is None:
                     dist["vars_all_empty"] += 1
+                elif any(data[rd][q][i][0] in (3, 5) and rd > 0 and not data[rd][q][i][1] for q in range(P)):
+                    dist["reset_then_nothing_with_samples_elsewhere"] += 1
                 for q in range(P):
                     w = outs.get((rd, q, i))
                     if w is None:
@@ -245,15 +278,21 @@ def run(ctx):
                                variance=bitsd(int(w[9], 16)), standev=bitsd(int(w[10], 16)), variance_mean=bitsd(int(w[11], 16)),
                                standev_mean=bitsd(int(w[12], 16)))
                     bad = None
-                    if not dirty[q] and rd > 0 and prev.get((q, i)) is not None and prev[(q, i)]["dirty"] == 0:
-                        # clean variable: untouched
+                    if not dirty[q]:
+                        # clean variable: untouched (all numeric fields, bit for bit)
                         dist["clean_vars"] += 1
-                        if w != prev[(q, i)]["raw"]:
-                            bad = "clean variable was modified"
+                        before = prev[(q, i)]["raw"][:13] if (q, i) in prev else ["0"] * 13
+                        if w[:13] != before:
+                            bad = "clean variable was modified" + (" by sc_stats_compute1" if kinds[rd] else "")
                     elif exp is None:
-                        if got["count"] != 0 or got["min_at"] != 0 or got["max_at"] != 0 or got["average"] != 0 or got["variance"] != 0 or got["standev"] != 0:
+                        if got["dirty"] != 1:
+                            bad = "dirty flag cleared although the variable has no sample on any rank"
+                        elif got["count"] != 0 or got["min_at"] != 0 or got["max_at"] != 0 or got["average"] != 0 or got["variance"] != 0 or got["standev"] != 0 \
+                                or got["variance_mean"] != 0 or got["standev_mean"] != 0:
                             bad = "variable without any sample: count/outputs not zero"
                     else:
+                        if got["dirty"] != 0:
+                            bad = "dirty flag still set after a computation with samples"
                         for k in ("count", "sum", "sumsq", "min", "max", "min_at", "max_at", "average", "variance", "standev", "variance_mean", "standev_mean"):
                             if got[k] != exp[k]:
                                 bad = "%s is %r, statistics of the union give %r" % (k, got[k], exp[k])
@@ -265,6 +304,16 @@ def run(ctx):
                         if nbad <= 3:
                             rep2 = dict(rep, round=rd, rank=q, var=i, samples_per_rank=contrib[i])
                             ctx.violation("stats:" + key + ":" + bad.split(" ")[0], "round %d rank %d variable %d: %s" % (rd, q, i, bad), rep2)
+                for q in range(P):
+                    isdirty[q][i] = dirty[q] and exp is None
+        # tie T2: the state machine of the model on the same histories
+        H, N = history_lines(c)
+        for i in range(nvars):
+            hlines.append(H[i])
+            hindex.append(("H", ci, i, None, [[outs.get((rd, q, i)) for q in range(P)] for rd in range(rounds)]))
+            for q in range(P):
+                hlines.append(N[i * P + q])
+                hindex.append(("N", ci, i, q, [outs.get((rd, q, i)) for rd in range(rounds)]))
         if r.mem not in (0, None):
             ctx.violation("memory:" + key, "sc_memory_status changed by %s over sc_stats_compute" % r.mem, rep)
         # tie: the records the real code packed, folded by the extracted generated combination
@@ -309,17 +358,70 @@ def run(ctx):
                     break
         ctx.notes["records_folded_by_model"] = len(mout)
         ctx.notes["model_mismatches"] = nmis
+        # the state machine (hist_exec of C13/VarModel.v) against the fields of sc_statinfo_t after every round on every rank
+        rc3, hout, err3 = ctx.run_lines([mexe], "\n".join(hlines) + "\n", timeout=900)
+        hout = [l for l in hout if l != ""]
+        if rc3 != 0 or len(hout) != len(hlines):
+            ctx.tie_broken("c13 state machine run", "exit %s, %d of %d lines: %s" % (rc3, len(hout), len(hlines), err3[-500:]))
+        hmis, hcmp = 0, 0
+
+        def hx(t):
+            return -int(t[1:], 16) if t.startswith("-") else int(t, 16)
+        for (kind, ci, i, q, impl), l in zip(hindex, hout):
+            cells = [x.split() for x in l.split(" ; ")]
+            P = cases[ci][0]
+            bad = None
+            if kind == "H":
+                for rd, row in enumerate(impl):
+                    for qq, w in enumerate(row):
+                        m = [hx(t) for t in cells[rd * P + qq]]
+                        if w is None:
+                            continue
+                        fl = [bitsd(int(w[k], 16)) for k in (2, 3, 4, 5)]
+                        got = [int(w[0]), int(w[1])] + fl + [int(w[6]), int(w[7])]
+                        hcmp += 1
+                        if got != m[:8]:
+                            bad = "round %d rank %d: implementation dirty/count/sum/sumsq/min/max/min_at/max_at %s, model %s" % (rd, qq, got, m[:8])
+                        elif bitsd(int(w[8], 16)) != m[8] / m[9]:
+                            bad = "round %d rank %d: average %r, model %d/%d" % (rd, qq, bitsd(int(w[8], 16)), m[8], m[9])
+                        if bad:
+                            break
+                    if bad:
+                        break
+            else:
+                for rd, w in enumerate(impl):
+                    if w is None:
+                        continue
+                    m = [hx(t) for t in cells[rd]][:4]
+                    got = [int(w[13]), int(w[14]), int(w[15]), int(w[16])]
+                    hcmp += 1
+                    if got != m:
+                        bad = "round %d rank %d: implementation owned/hasname/group/prio %s, model %s" % (rd, q, got, m)
+                        break
+            if bad:
+                hmis += 1
+                if hmis <= 3:
+                    ctx.tie_broken("state machine vs implementation, case %d variable %d" % (ci, i), bad + "; case " + json.dumps(cases[ci])[:600])
+        ctx.notes["state_machine_comparisons"] = hcmp
+        ctx.notes["state_machine_mismatches"] = hmis
     except vlib.BuildError as e:
         ctx.tie_broken("c13 model build", str(e)[-1500:])
-    ctx.cov["disagreements_checked"] = len(mlines)
+    ctx.cov["disagreements_checked"] = len(mlines) + len(hlines)
     ctx.cov["rule"] = ("runs of sc_stats_compute on the simulated MPI (user reduction applied along random binary trees over random rank permutations): "
-                       "1-4 variables, 1-2 rounds (second round leaves a random subset clean), integer-valued samples of both signs, all-positive, all-negative, "
-                       "ties in the extremes, empty on random subsets / all ranks / all but the lowest / all but the highest; non-trivial = P > 1")
+                       "1-4 variables, 1-4 rounds (later rounds leave a random subset clean, on all or on some ranks), calls per rank and variable: init / init_ext(copy) + accumulate, "
+                       "set1 / set1_ext(copy), reset(0) / reset(1) + accumulate (also reset and then nothing while other ranks have samples), accumulate only on a variable that stayed "
+                       "dirty, nothing; 25% of the rounds end with sc_stats_compute1 (with variables clean on all ranks / on some ranks: they must stay untouched, repair F-C13a; "
+                       "the witness of C13_compute1_clean_old_refuted is case 0); integer-valued samples of both signs, all-positive, all-negative, "
+                       "ties in the extremes, empty on random subsets / all ranks / all but the lowest / all but the highest; non-trivial = P > 1; "
+                       "every history is also run through the extracted state machine (all fields after every round on every rank)")
     ctx.notes["distribution"] = dist
     for c in cases[:: max(1, len(cases) // 3)][:3]:
-        ctx.sample({"P": c[0], "seed": c[1], "adversary": c[2], "nvars": c[3], "rounds": c[4], "round0_rank0": c[5][0][0]})
-    ctx.cov["trusted_base"] = ["tools/c2g translation of sc_stats_mpifunc's loop body with doubles read as exact numbers (samples in the runs are integer valued, so every sum is exact in binary64)",
+        ctx.sample({"P": c[0], "seed": c[1], "adversary": c[2], "nvars": c[3], "rounds": c[4], "kinds": c[6], "round0_rank0": c[5][0][0]})
+    ctx.cov["trusted_base"] = ["tools/c2g translation of sc_stats_mpifunc's loop body and of the slices of group StatsVarC13 with doubles read as exact numbers (samples in the runs are integer valued, so every sum is exact in binary64); "
+                               "conventions of tools/c2g/groups_C13.py: stats[i].f / flat*[7 * i + K] as locations, (long) / (int) of a double as s64 / s32, floating division and sqrt as function parameters, 56 zero bytes = seven 0.0",
+                               "rounding of binary64, sqrt and the bit patterns of the twelve outputs: Python oracle recomputing them in the order of the C code",
                                "tools/simmpi (MPI_Allreduce with a commutative user operation: arbitrary tree over arbitrary permutation)"]
-    ctx.assumptions += ["sums: exact arithmetic; with general doubles the sums agree up to the rounding of another summation order (not judged bitwise)",
+    ctx.assumptions += ["sc_stats_accumulate only on dirty variables (SC_ASSERT)",
+                        "sums: exact arithmetic; with general doubles the sums agree up to the rounding of another summation order (not judged bitwise)",
                         "MPI applies a commutative user operation in any order and association"]
     return "proof"
